@@ -1122,7 +1122,7 @@ def verdict_paths(body, O, guarded_bb, opposite_bb, limit=256):
 
 # ---------------------------------------------------------------------------------------------------------------------
 # reaching conditions as boolean functions over comparison facts
-def reach_dnf(body, O, target_bb, limit=4096, param_atoms=False):
+def reach_dnf(body, O, target_bb, limit=4096, param_atoms=False, program=None):
     """The comparison outcomes under which block `target_bb` is reached from the entry: a set of paths, each a frozenset of
     (comparison key, 'below' | 'at-or-above').  Decisions that were stored in a bool first (`let unsigned = MIN >= 0; ..
     match (unsigned, fits)`; `let any = matches!(..)`) are resolved along each path: a switch on such a local counts as the
@@ -1168,7 +1168,10 @@ def reach_dnf(body, O, target_bb, limit=4096, param_atoms=False):
             op = rv["op"]
             if op.get("k") == "const" and op.get("ty") == "bool":
                 if "val" not in op:
-                    return None         # an associated constant of a generic parameter (`C::EXTENSIBLE`): not known here
+                    # an associated constant of a generic parameter (`C::EXTENSIBLE`): not known here - an atom of its own
+                    if param_atoms and op.get("name") and op.get("trait"):
+                        return ("assoc", op["name"])
+                    return None
                 return ("const", bool(int(op.get("val", "0"))))
             if op.get("k") in ("copy", "move") and not op["pl"]["p"]:
                 return resolve(op["pl"]["l"], path[:pos[d[0]] + 1], depth + 1)
@@ -1183,6 +1186,8 @@ def reach_dnf(body, O, target_bb, limit=4096, param_atoms=False):
                 return ("const", not r[1])
             if r[0] == "param":
                 return ("param", r[1], not (r[2] if len(r) > 2 else False))
+            if r[0] == "assoc":
+                return ("assoc", r[1], not (r[2] if len(r) > 2 else False))
             return ("cmp", r[1], not r[2])
         return None
 
@@ -1241,9 +1246,9 @@ def reach_dnf(body, O, target_bb, limit=4096, param_atoms=False):
                     l2 = dict(lits)
                     l2[k] = truth
                     go(tg, path, l2)
-                elif r is not None and r[0] == "param":
+                elif r is not None and r[0] in ("param", "assoc"):
                     v = (not val) if (len(r) > 2 and r[2]) else val
-                    k = "param:$%d" % r[1]
+                    k = ("param:$%d" % r[1]) if r[0] == "param" else ("assoc:%s" % r[1])
                     truth = "true" if v else "false"
                     if lits.get(k, truth) != truth:
                         continue
@@ -1253,9 +1258,61 @@ def reach_dnf(body, O, target_bb, limit=4096, param_atoms=False):
                 else:
                     go(tg, path, lits)
             return
+        if param_atoms and t["k"] == "switch" and t.get("opty") != "bool" and t["op"].get("k") in ("copy", "move") and not t["op"]["pl"]["p"]:
+            nm = assoc_of_discriminant(t["op"]["pl"]["l"], path)
+            if nm is not None:
+                k = "assoc:%s#variant" % nm
+                by_t = {}
+                for v, tg in zip(t["vals"], t["targets"]):
+                    by_t.setdefault(tg, []).append(int(v))
+                for tg in sorted(set(body.succ[n])):
+                    if tg not in can_reach or tg in path:
+                        continue
+                    if tg in by_t and tg != t["otherwise"]:
+                        truth = "in:" + ",".join(str(x) for x in sorted(by_t[tg]))
+                    else:
+                        truth = "not:" + ",".join(str(int(x)) for x in t["vals"])
+                        if tg == t["otherwise"] and all(not body.blocks[tg]["stmts"] and (body.blocks[tg]["term"] or {}).get("k") == "unreachable"
+                                                        for _ in (0,)):
+                            continue
+                    if lits.get(k, truth) != truth:
+                        continue
+                    l2 = dict(lits)
+                    l2[k] = truth
+                    go(tg, path, l2)
+                return
         for tg in sorted(set(body.succ[n])):
             if tg in can_reach and tg not in path:
                 go(tg, path, lits)
+
+    def assoc_of_discriminant(l, path, depth=0):
+        """name of the associated constant whose discriminant the local holds (`match &C::MIN { None => .. }`), or None"""
+        if depth > 6:
+            return None
+        ds = [d for d in body.defs.get(l, ()) if d[2] == "assign"]
+        if len(ds) != 1:
+            return None
+        rv = ds[0][3]
+        if rv["k"] == "discr":
+            return assoc_of_discriminant(rv["pl"]["l"], path, depth + 1)
+        if rv["k"] == "ref":
+            return assoc_of_discriminant(rv["pl"]["l"], path, depth + 1)
+        if rv["k"] == "use":
+            op = rv["op"]
+            if op.get("k") == "const":
+                if op.get("name") and op.get("trait"):
+                    return op["name"]
+                if op.get("promoted") and program is not None:
+                    pb = program.bodies.get("%s::%s::promoted[%s]" % (body.crate, op.get("path", ""), op.get("promoted_idx", 0)))
+                    if pb is not None:
+                        for _bb, _j, st in pb.all_statements():
+                            o2 = (st.get("rv") or {}).get("op") if st["k"] == "assign" else None
+                            if isinstance(o2, dict) and o2.get("k") == "const" and o2.get("name") and o2.get("trait"):
+                                return o2["name"]
+                return None
+            if op.get("k") in ("copy", "move"):
+                return assoc_of_discriminant(op["pl"]["l"], path, depth + 1)
+        return None
 
     go(0, [], {})
     if count[0] > limit:
